@@ -8,6 +8,7 @@ class C07(FCheck):
     prop = "C07"
     level = "exploration"
     default_seed = 7007
+    ustep_rate = 0.35
     N = {"quick": 80, "thorough": 2000}
     PER_CASE = {"quick": 30, "thorough": 100000}
     PAIRS = {"quick": 0, "thorough": 20}
